@@ -24,7 +24,7 @@ SPEC = dict(
         dict(pkg=_PKG, run="^TestVerifC15Race", race=True, thorough_only=True, timeout_thorough=3000,
              env_thorough={"C15_RACE_ROUNDS": "1200"},
              failpoints=[
-                 dict(file=_REG, anchor="// 处理新增", name="c15Emit", where="before"),
+                 dict(file=_REG, anchor="for _, kv := range add {", name="c15Emit", where="before"),
                  dict(file=_REG, anchor="l.OnAdd(KV{", name="c15Notify", where="before"),
                  dict(file=_REG, anchor="return c.monitor(key, l)", name="c15Join", where="before"),
              ],
